@@ -1,5 +1,6 @@
 import AlphaG.Model.Helix
 import Mathlib.Analysis.SpecialFunctions.Complex.Arg
+import Mathlib.Analysis.SpecialFunctions.Trigonometric.Deriv
 /-
 C16 — reported track parameters are true closest-approach parameters.
 
@@ -134,5 +135,92 @@ theorem circle_case_optimal (q : Params ℝ) (p : Point ℝ) (tol : ℝ) (n : Na
   rw [hval, hdist, hdist, lincomb_at_arg]
   have := lincomb_le_abs c d t
   linarith
+
+end AlphaG.Helix
+
+namespace AlphaG.Helix
+
+/-! ### Kepler's equation is the stationarity condition (pitch ≠ 0) -/
+
+/-- The derivative of `distSq` in closed form. -/
+noncomputable def dDistSq (q : Params ℝ) (p : Point ℝ) (t : ℝ) : ℝ :=
+  2 * (q.r * Real.cos (t + q.phi0) + q.x0 - px realOps p) * (-(q.r * Real.sin (t + q.phi0)))
+    + 2 * (q.r * Real.sin (t + q.phi0) + q.y0 - py realOps p) * (q.r * Real.cos (t + q.phi0))
+    + 2 * (q.h / (2 * Real.pi) * t + q.z0 - p.z) * (q.h / (2 * Real.pi))
+
+theorem hasDerivAt_distSq (q : Params ℝ) (p : Point ℝ) (t : ℝ) :
+    HasDerivAt (distSq q p) (dDistSq q p t) t := by
+  unfold dDistSq
+  have hc : HasDerivAt (fun s => q.r * Real.cos (s + q.phi0) + q.x0 - px realOps p)
+      (-(q.r * Real.sin (t + q.phi0))) t := by
+    have h1 : HasDerivAt (fun s : ℝ => s + q.phi0) 1 t := (hasDerivAt_id t).add_const _
+    have := ((Real.hasDerivAt_cos (t + q.phi0)).comp t h1).const_mul q.r
+    simpa using (this.add_const q.x0).sub_const (px realOps p)
+  have hs : HasDerivAt (fun s => q.r * Real.sin (s + q.phi0) + q.y0 - py realOps p)
+      (q.r * Real.cos (t + q.phi0)) t := by
+    have h1 : HasDerivAt (fun s : ℝ => s + q.phi0) 1 t := (hasDerivAt_id t).add_const _
+    have := ((Real.hasDerivAt_sin (t + q.phi0)).comp t h1).const_mul q.r
+    simpa using (this.add_const q.y0).sub_const (py realOps p)
+  have hz : HasDerivAt (fun s => q.h / (2 * Real.pi) * s + q.z0 - p.z) (q.h / (2 * Real.pi)) t := by
+    have := ((hasDerivAt_id t).const_mul (q.h / (2 * Real.pi)))
+    simpa using (this.add_const q.z0).sub_const p.z
+  have := ((hc.pow 2).add (hs.pow 2)).add (hz.pow 2)
+  have hf : distSq q p = (fun s => q.r * Real.cos (s + q.phi0) + q.x0 - px realOps p) ^ 2
+      + (fun s => q.r * Real.sin (s + q.phi0) + q.y0 - py realOps p) ^ 2
+      + (fun s => q.h / (2 * Real.pi) * s + q.z0 - p.z) ^ 2 := by
+    funext s
+    simp only [distSq, helixAt, realOps, Pi.add_apply, Pi.pow_apply]
+  rw [hf]
+  exact this.congr_deriv (by norm_num)
+
+/-- **Kepler ⇔ stationary.** For pitch `h ≠ 0`, with the code's substitution
+`E = π − (t + φ₀ − δ) + 2πn`, `e = 4π²ρr/h²`, `M = π + 2πn − (φ₀ + 2π(p_z − z₀)/h − δ)` (where
+`ρ`, `δ` are the polar coordinates of the point about the helix axis and `n` is any integer — the
+code takes the floor of `temp / 2π`), the derivative of the squared distance vanishes at `t`
+exactly when Kepler's equation `M = E − e sin E` holds. So the value the Newton loop converges to
+is a stationary point of the distance; that it is the *global* minimum is decided by the
+harness oracle, not by a theorem. -/
+theorem kepler_iff_stationary (q : Params ℝ) (p : Point ℝ) (hh : q.h ≠ 0) (t : ℝ) (n : ℤ) :
+    deriv (distSq q p) t = 0 ↔
+      Real.pi + 2 * Real.pi * n
+          - (q.phi0 + 2 * Real.pi * (p.z - q.z0) / q.h
+              - Complex.arg ⟨px realOps p - q.x0, py realOps p - q.y0⟩)
+        = (Real.pi - (t + q.phi0 - Complex.arg ⟨px realOps p - q.x0, py realOps p - q.y0⟩)
+              + 2 * Real.pi * n)
+          - 4 * Real.pi ^ 2 * Real.sqrt ((px realOps p - q.x0) ^ 2 + (py realOps p - q.y0) ^ 2)
+              * q.r / q.h ^ 2
+            * Real.sin (Real.pi - (t + q.phi0
+                - Complex.arg ⟨px realOps p - q.x0, py realOps p - q.y0⟩) + 2 * Real.pi * n) := by
+  rw [(hasDerivAt_distSq q p t).deriv]
+  set a := px realOps p - q.x0 with ha
+  set b := py realOps p - q.y0 with hb
+  set δ := Complex.arg ⟨a, b⟩ with hδ
+  set ρ := Real.sqrt (a ^ 2 + b ^ 2) with hρ
+  have hn : ‖(⟨a, b⟩ : ℂ)‖ = ρ := by
+    rw [Complex.norm_def, Complex.normSq_mk]; congr 1; ring
+  have hca : ρ * Real.cos δ = a := by rw [← hn]; exact Complex.norm_mul_cos_arg _
+  have hsb : ρ * Real.sin δ = b := by rw [← hn]; exact Complex.norm_mul_sin_arg _
+  have hsinE : Real.sin (Real.pi - (t + q.phi0 - δ) + 2 * Real.pi * n)
+      = Real.sin (t + q.phi0) * Real.cos δ - Real.cos (t + q.phi0) * Real.sin δ := by
+    rw [show Real.pi - (t + q.phi0 - δ) + 2 * Real.pi * n
+        = Real.pi - (t + q.phi0 - δ) + n * (2 * Real.pi) by ring,
+      Real.sin_add_int_mul_two_pi, Real.sin_pi_sub, Real.sin_sub]
+  rw [hsinE]
+  have hpi : Real.pi ≠ 0 := Real.pi_ne_zero
+  have key : dDistSq q p t
+      = -(q.h ^ 2 / (2 * Real.pi ^ 2)) *
+        ((Real.pi - (t + q.phi0 - δ) + 2 * Real.pi * n)
+          - 4 * Real.pi ^ 2 * ρ * q.r / q.h ^ 2
+              * (Real.sin (t + q.phi0) * Real.cos δ - Real.cos (t + q.phi0) * Real.sin δ)
+          - (Real.pi + 2 * Real.pi * n - (q.phi0 + 2 * Real.pi * (p.z - q.z0) / q.h - δ))) := by
+    unfold dDistSq
+    rw [show px realOps p = a + q.x0 by rw [ha]; ring, show py realOps p = b + q.y0 by rw [hb]; ring,
+      ← hca, ← hsb]
+    field_simp
+    ring
+  rw [key]
+  have hc : -(q.h ^ 2 / (2 * Real.pi ^ 2)) ≠ 0 := by
+    apply neg_ne_zero.2; positivity
+  rw [mul_eq_zero, or_iff_right hc, sub_eq_zero, eq_comm]
 
 end AlphaG.Helix
